@@ -167,7 +167,7 @@ PROPS.update({
 
 # ---- likely subtags (feature likelysubtags): tables, cascade, minimize ---------------------------------------------
 TAB_NAMES = ['lang_only', 'lang_region', 'lang_script', 'script_region', 'script_only', 'region_only']
-TAB_SMALL_EQ = [K('langid_tables', n + '_eq_cldr') for n in TAB_NAMES if n != 'lang_only']
+TAB_SMALL_EQ = [K('langid_tables', n + '_eq_cldr') for n in TAB_NAMES if n != 'lang_only'] + [K('langid_tables', 'lang_only_eq_cldr_ctfe')]
 TAB_SORTED = [K('langid_tables', n + '_sorted') for n in TAB_NAMES]
 TAB_WF = [K('langid_tables', n + '_wf') for n in TAB_NAMES]
 TAB_BIG_EQ = [K('langid_tables', 'lang_only_eq_cldr_%02d' % k, tier='thorough', timeout=2400, cost='5-8 min each') for k in range(14)]
@@ -187,8 +187,8 @@ PROPS.update({
         'verus': [V('bridge', BRIDGE_LID)],
         'trusted': ['vf/gen.py (independent re-derivation of the expected tables from the CLDR JSON files: UTS #35 shape rules + little-endian ASCII integer form) is the oracle; '
                     'the repository\'s generator binaries are not re-run',
-                    'LANG_ONLY (7143 rows) equality with CLDR is split into 14 chunk obligations (5-8 min each) that run in the thorough tier; the quick tier decides '
-                    'its length, strict order, well-formedness and key-keeping for every row and defers value equality (listed under deferred)'],
+                    'LANG_ONLY (7143 rows) == CLDR: in the quick tier the closed boolean is evaluated by rustc\'s compile-time evaluator (const initialiser reading the real '
+                    'static; obligation lang_only_eq_cldr_ctfe asserts the constant); the thorough tier re-proves it with CBMC alone in 14 chunk obligations (5-8 min each)'],
         'explanation': 'closed obligations over the compiled statics of the real crate, each decided for EVERY row through one symbolic index: table == the CLDR data '
                        'regenerated on every run, keys strictly increasing in the Ord of the key tuple that binary_search_by_key uses, every stored integer is the '
                        'integer form of a well-formed canonically-cased subtag (wf predicates = the leaf predicates Verus proves equal to the spec), every value has '
